@@ -127,6 +127,7 @@ def run(tier):
         e["case"] = farm.add(Case(r["tokens"], [("op", "Op")], prelude="pub type Date = String;")) if r["status"] == "ok" else None
     farm.build()
     reqs, meta = [], []
+    conforming_of = {}
     for e in entries:
         if not e["case"] or not farm.cases[e["case"]].compiles:
             continue
@@ -146,6 +147,7 @@ def run(tier):
             for kind, rpath, bad, expect in corruptions(ex, op, payload):
                 reqs.append({"case": e["case"], "module": "op", "what": "resp", "arg": bad})
                 meta.append((e, kind, rpath, bad, expect))
+                conforming_of[id(bad)] = payload
     log(f"[C03] {len(entries)} modules ({len(ov)} with other-variant), {len(reqs)} evaluations")
     resps = farm.run(reqs)
     distinct = set()
@@ -159,6 +161,10 @@ def run(tier):
         ok = bool(r.get("ok"))
         if kind == "conforming":
             base_ok[(e["case"], json.dumps(payload, sort_keys=True))] = ok
+            continue
+        if not base_ok.get((e["case"], json.dumps(conforming_of[id(payload)], sort_keys=True)), True):
+            # the conforming vector itself is rejected by this module (C01's business): its corruptions say nothing
+            outcomes[("unjudged", "conforming_base_rejected")] = outcomes.get(("unjudged", "conforming_base_rejected"), 0) + 1
             continue
         outcomes[(kind, "accepted" if ok else "rejected")] = outcomes.get((kind, "accepted" if ok else "rejected"), 0) + 1
         distinct.add((e["query"], e["ov"], kfpred.strip_indices(rpath), kind))
